@@ -1953,21 +1953,175 @@ func callNameStmt(s ast.Stmt) (string, string, []ast.Expr, bool) {
 
 // ---------------------------------------------------------------- function.go
 
+// method table of function.go: own methods, methods promoted from embedded (anonymous) struct fields, and one-line
+// delegations `return X{}.m(args…)` / `return r.field.m(args…)` / `return r.Embedded.m(args…)` to the method of the
+// same name of another type of the file with the parameters passed on in order: the effective declaration of T.m
+type catchEntry struct {
+	tn string
+	fd *ast.FuncDecl
+}
+
+func recvTypeName(fd *ast.FuncDecl) string {
+	if fd.Recv == nil || len(fd.Recv.List) != 1 {
+		return ""
+	}
+	rt := fd.Recv.List[0].Type
+	if s, ok := rt.(*ast.StarExpr); ok {
+		rt = s.X
+	}
+	switch ix := rt.(type) {
+	case *ast.IndexListExpr:
+		rt = ix.X
+	case *ast.IndexExpr:
+		rt = ix.X
+	}
+	if tn, ok := rt.(*ast.Ident); ok {
+		return tn.Name
+	}
+	return ""
+}
+
+func typeExprName(e ast.Expr) string {
+	switch x := e.(type) {
+	case *ast.Ident:
+		return x.Name
+	case *ast.IndexExpr:
+		return typeExprName(x.X)
+	case *ast.IndexListExpr:
+		return typeExprName(x.X)
+	case *ast.StarExpr:
+		return typeExprName(x.X)
+	}
+	return ""
+}
+
+func catchEntries(f *ast.File) []catchEntry {
+	methods := map[string]map[string]*ast.FuncDecl{}
+	fieldType := map[string]map[string]string{} // struct type -> field name (or embedded type name) -> type name
+	embeds := map[string][]string{}
+	order := []string{}
+	seen := map[string]bool{}
+	note := func(t string) {
+		if t != "" && !seen[t] {
+			seen[t] = true
+			order = append(order, t)
+		}
+	}
+	for _, d := range f.Decls {
+		switch x := d.(type) {
+		case *ast.FuncDecl:
+			if t := recvTypeName(x); t != "" {
+				if methods[t] == nil {
+					methods[t] = map[string]*ast.FuncDecl{}
+				}
+				methods[t][x.Name.Name] = x
+				note(t)
+			}
+		case *ast.GenDecl:
+			if x.Tok != token.TYPE {
+				continue
+			}
+			for _, sp := range x.Specs {
+				ts := sp.(*ast.TypeSpec)
+				st, ok := ts.Type.(*ast.StructType)
+				if !ok {
+					continue
+				}
+				fieldType[ts.Name.Name] = map[string]string{}
+				for _, fl := range st.Fields.List {
+					tn := typeExprName(fl.Type)
+					if len(fl.Names) == 0 {
+						embeds[ts.Name.Name] = append(embeds[ts.Name.Name], tn)
+						fieldType[ts.Name.Name][tn] = tn
+					}
+					for _, n := range fl.Names {
+						fieldType[ts.Name.Name][n.Name] = tn
+					}
+				}
+				note(ts.Name.Name)
+			}
+		}
+	}
+	var lookup func(t, m string, depth int) *ast.FuncDecl
+	lookup = func(t, m string, depth int) *ast.FuncDecl {
+		if depth > 3 {
+			return nil
+		}
+		if fd := methods[t][m]; fd != nil {
+			return fd
+		}
+		for _, e := range embeds[t] {
+			if fd := lookup(e, m, depth+1); fd != nil {
+				return fd
+			}
+		}
+		return nil
+	}
+	// delegation: the body is `return <recv-ish>.m(p1, …, pk)` with exactly the parameters in order
+	var effective func(t, m string, depth int) *ast.FuncDecl
+	effective = func(t, m string, depth int) *ast.FuncDecl {
+		fd := lookup(t, m, 0)
+		if fd == nil || depth > 3 || fd.Body == nil || len(fd.Body.List) != 1 {
+			return fd
+		}
+		r, ok := fd.Body.List[0].(*ast.ReturnStmt)
+		if !ok || len(r.Results) != 1 {
+			return fd
+		}
+		call, ok := r.Results[0].(*ast.CallExpr)
+		if !ok {
+			return fd
+		}
+		sel, ok := call.Fun.(*ast.SelectorExpr)
+		if !ok || sel.Sel.Name != m {
+			return fd
+		}
+		params := []string{}
+		for _, p := range fd.Type.Params.List {
+			for _, n := range p.Names {
+				params = append(params, n.Name)
+			}
+		}
+		if len(params) != len(call.Args) {
+			return fd
+		}
+		for i, a := range call.Args {
+			if id, ok := a.(*ast.Ident); !ok || id.Name != params[i] {
+				return fd
+			}
+		}
+		target := ""
+		switch x := sel.X.(type) {
+		case *ast.CompositeLit: // abort{}.catch(…)
+			if len(x.Elts) == 0 {
+				target = typeExprName(x.Type)
+			}
+		case *ast.SelectorExpr: // r.field.catch(…)
+			if id, ok := x.X.(*ast.Ident); ok && len(fd.Recv.List[0].Names) == 1 && id.Name == fd.Recv.List[0].Names[0].Name {
+				target = fieldType[recvTypeName(fd)][x.Sel.Name]
+			}
+		}
+		if target == "" || lookup(target, m, 0) == nil {
+			return fd
+		}
+		return effective(target, m, depth+1)
+	}
+	out := []catchEntry{}
+	for _, t := range order {
+		for _, m := range []string{"errch", "pipef", "catch"} {
+			if fd := effective(t, m, 0); fd != nil {
+				out = append(out, catchEntry{t, fd})
+			}
+		}
+	}
+	return out
+}
+
 func catchFamily(f *ast.File) string {
 	var sb strings.Builder
-	for _, d := range f.Decls {
-		fd, ok := d.(*ast.FuncDecl)
-		if !ok || fd.Recv == nil || len(fd.Recv.List) != 1 {
-			continue
-		}
-		rt := fd.Recv.List[0].Type
-		if ix, ok := rt.(*ast.IndexListExpr); ok {
-			rt = ix.X
-		}
-		tn, ok := rt.(*ast.Ident)
-		if !ok {
-			continue
-		}
+	for _, ent := range catchEntries(f) {
+		fd := ent.fd
+		tn := ast.NewIdent(ent.tn)
 		func() {
 			defer func() {
 				if r := recover(); r != nil {
@@ -2024,7 +2178,7 @@ func catchFamily(f *ast.File) string {
 				if len(fd.Recv.List[0].Names) == 1 {
 					recv = fd.Recv.List[0].Names[0].Name
 				}
-				if !ok || rc != "pipe" || len(args) != 1 || src(args[0]) != recv {
+				if !ok || rc != "pipe" || len(args) != 1 || (src(args[0]) != recv && !strings.HasPrefix(src(args[0]), recv+".")) {
 					sfail(fd, "pipef: expected `return pipe.X(f)`")
 				}
 				fmt.Fprintf(&sb, "def %s_pipef : String := %q\n\n", tn.Name, "pipe."+n)
